@@ -318,6 +318,14 @@ def evaluate(pid, sub, spec, stats, known, record=True):
         raise
     except Exception as exc:  # classify by where it was raised
         hit = _target_frame(exc.__traceback__)
+        if hit is None and isinstance(exc, AttributeError) and getattr(exc, 'obj', None) is not None:
+            # the check asked an object of the package under test (or something it returned in place of a result) for a documented
+            # attribute and it is not there: that is a statement about the code under test, not about the harness
+            o = exc.obj
+            mod_ = getattr(type(o), '__module__', '') or ''
+            mod2 = getattr(o, '__module__', '') or ''
+            if mod_.startswith('pyPRISM') or (isinstance(mod2, str) and mod2.startswith('pyPRISM')):
+                hit = ('(attribute access by the check)', type(o).__name__, 0)
         if hit is None:
             raise HarnessError('exception in harness code for %s/%s: %s\nspec=%s\n%s' % (
                 pid, sub.name, exc, canon(spec)[:2000], traceback.format_exc()))
